@@ -186,37 +186,50 @@ def enc_obj(o, ids):
 
 
 def spelled(call, pool):
-    """the shape of a call, e.g. inc(d,f,**d) - a stable key for known-finding matchers"""
+    """the shape of a call, e.g. inc(d,f,**d), r.exc(d) (r = the previous result) - a stable key for known-finding matchers"""
     a = ['d' if pool[s - 1]['kind'] == 'dict' else 'f' for s in seq(call['pos'])]
     if call['kw']: a.append('**d')
     if call['x']: a.append('exc=d')
-    return '%s(%s)' % (call['op'] if call['op'] != 'find' else 'find_' + call['col'], ','.join(a))
+    return '%s%s(%s)' % ('r.' if call.get('on') == 'last' else '', call['op'] if call['op'] != 'find' else 'find_' + call['col'], ','.join(a))
+
+
+def enc_result(res, ids):
+    out = proj_table(res, ids)
+    out['cols'] = sorted(out['cols'])
+    out['kind'] = 'table'
+    return out
 
 
 def run_session(t_abs, pool_abs, calls):
     """replay a history on ONE real table with ONE set of filter objects; every call is logged with its outcome and
-    with the pool and the table as the caller sees them afterwards"""
+    with the pool and the table (and, for a call made on the previous result, that result) as the caller sees them afterwards"""
     ids = IdMap()
     d = table_from(t_abs, ids)
     objs = render_pool(pool_abs, ids)
     o = {'op': 'session', 't': t_abs, 'pool': [enc_obj(x, ids) for x in objs], 'calls': []}
+    last = None                                             # the table object the previous call returned
     for c in calls:
-        c = {'op': c['op'], 'col': c['col'], 'pos': seq(c['pos']), 'kw': c['kw'], 'x': c['x']}
+        c = {'op': c['op'], 'col': c['col'], 'pos': seq(c['pos']), 'kw': c['kw'], 'x': c['x'], 'on': c.get('on', 't')}
+        if c['on'] == 'last' and last is None:              # nothing to chain on (the previous call did not return a table)
+            c['on'] = 't'
         args = [objs[s - 1] for s in c['pos']]
         kw = objs[c['kw'] - 1] if c['kw'] else {}
+        opd = d if c['on'] == 't' else last
+        res = None
         try:
             if c['op'] == 'find':
-                out = {'kind': 'val', 'v': tag(getattr(d, 'find_' + c['col'])(*args, **kw), ids)}
+                out = {'kind': 'val', 'v': tag(getattr(opd, 'find_' + c['col'])(*args, **kw), ids)}
             elif c['op'] == 'one':
-                res = d.one_or_none(*args, exc=objs[c['x'] - 1], **kw) if c['x'] else d.one_or_none(*args, **kw)
-                out = {'kind': 'none'} if res is None else {'kind': 'row', 'row': {k: tag(v, ids) for k, v in res.items()}}
+                row = opd.one_or_none(*args, exc=objs[c['x'] - 1], **kw) if c['x'] else opd.one_or_none(*args, **kw)
+                out = {'kind': 'none'} if row is None else {'kind': 'row', 'row': {k: tag(v, ids) for k, v in row.items()}}
             else:
-                out = proj_table(d.inc(*args, **kw) if c['op'] == 'inc' else d.exc(*args, **kw), ids)
-                out['cols'] = sorted(out['cols'])
-                out['kind'] = 'table'
+                res = opd.inc(*args, **kw) if c['op'] == 'inc' else opd.exc(*args, **kw)
+                out = enc_result(res, ids)
         except Exception as e:
             out = {'kind': 'exc', 'cls': type(e).__name__}
-        o['calls'].append({'call': c, 'out': out, 'pool_after': [enc_obj(x, ids) for x in objs], 't_after': proj_table(d, ids)})
+        o['calls'].append({'call': c, 'out': out, 'pool_after': [enc_obj(x, ids) for x in objs], 't_after': proj_table(d, ids),
+                           'opd_after': enc_result(opd, ids) if c['on'] == 'last' else {'kind': 't'}})
+        last = res
     return o
 
 
@@ -242,8 +255,8 @@ def s2c_sessions(ctx, snaps, label):
         ctx.evals += len(hist)
         ctx.traces += 1
         for i, (h, e) in enumerate(zip(hist, o['calls'])):
-            if e['t_after'] != s['t']:
-                clause, detail = 'operand_changed', {'after': e['t_after']}
+            if e['t_after'] != s['t'] or e['opd_after'] != h['opd']:
+                clause, detail = 'operand_changed', {'after': e['t_after'], 'operand_after': e['opd_after']}
             elif e['pool_after'] != s['snap']:
                 clause, detail = 'filter_argument_changed', {'pool_after': e['pool_after']}
             elif e['out'] not in seq(h['want']):
@@ -260,7 +273,7 @@ def s2c_sessions(ctx, snaps, label):
 
 def rand_session(rng):
     """a random history on a random table: 2-5 pool objects, 2-6 calls each taking 0-3 of them"""
-    t, sub = rand_table(rng, 12)
+    t, sub = rand_table(rng, 8)
     cols = t['cols']
     wild = rng.random() < 0.15            # now and then two filters disagree on a column: outside the domain, the spec says so
     def cc():
@@ -293,7 +306,10 @@ def rand_session(rng):
                 seen = True
         kw = rng.choice(dicts) if dicts and rng.random() < 0.3 else 0
         x = rng.choice(dicts) if dicts and op == 'one' and rng.random() < 0.4 else 0
-        calls.append({'op': op, 'col': rng.choice(cols) if op == 'find' else '', 'pos': pos, 'kw': kw, 'x': x})
+        on = 'last' if calls and calls[-1]['op'] in ('inc', 'exc') and rng.random() < 0.3 else 't'
+        if on == 'last' and rng.random() < 0.5:            # the very same arguments again, on the result
+            pos, kw = list(calls[-1]['pos']), calls[-1]['kw']
+        calls.append({'op': op, 'col': rng.choice(cols) if op == 'find' else '', 'pos': pos, 'kw': kw, 'x': x, 'on': on})
     return t, pool, calls
 
 
@@ -364,26 +380,30 @@ def c2s(ctx, ntables, nsessions):
 
 def sessions(ctx):
     """histories that share the caller's objects (IncSession.tla / MC_IncSession.tla)"""
-    ctx.mc('MC_IncSession', 'MC_IncSession_quick.cfg' if ctx.quick else 'MC_IncSession_thorough.cfg')
-    # the model can express what it forbids: with `filters` BEING the caller's lone dict the pool does not survive inc(q1, q2)
-    ctx.mc('MC_IncSession', 'MC_IncSession_adopt.cfg', must_fail='PoolUntouched', coverage=False)
+    from harness.core import Machinery
     if ctx.quick:
-        snaps = ctx.generate('MC_IncSession', 'MC_IncSession_gen2.cfg')
-        one = [x for x in snaps if len(seq(x['hist'])) == 1]
-        two = [x for x in snaps if len(seq(x['hist'])) > 1]
-        s2c_sessions(ctx, one + ctx.rng.sample(two, min(len(two), 5000)), 'sess2')
+        # one TLC run checks the clauses on every history of 2 calls AND prints them for the replay
+        snaps = ctx.generate('MC_IncSession', 'MC_IncSession_quick.cfg')
+        taken = {spelled(h['call'], x['pool']).replace('find_a', 'find').replace('find_b', 'find') for x in snaps for h in seq(x['hist'])}
+        for need in ('inc(d,d)', 'exc(d,d)', 'find(d,d)', 'one(d,d)', 'inc(d,f)', 'exc(f,d)', 'inc(d,**d)', 'one(d,exc=d)', 'inc()', 'exc(f)', 'r.inc(d,d)', 'r.exc(d,**d)'):
+            if need not in taken:
+                raise Machinery('vacuous: no generated history of MC_IncSession_quick.cfg contains a call of the form %s' % need)
+        s2c_sessions(ctx, snaps, 'sess2')
     else:
+        ctx.mc('MC_IncSession', 'MC_IncSession_thorough.cfg')
+        # the model can express what it forbids: with `filters` BEING the caller's lone dict the pool does not survive inc(q1, q2)
+        ctx.mc('MC_IncSession', 'MC_IncSession_adopt.cfg', must_fail='PoolUntouched', coverage=False)
         for cfg in ('MC_IncSession_gen2t.cfg', 'MC_IncSession_gen2f.cfg', 'MC_IncSession_gen3a.cfg'):
             s2c_sessions(ctx, ctx.generate('MC_IncSession', cfg), cfg[13:-4])
-        s2c_sessions(ctx, ctx.generate('MC_IncSession', 'MC_IncSession_sim.cfg', simulate=300, depth=6, seed=ctx.seed + 1, workers=1), 'sim')
+        s2c_sessions(ctx, ctx.generate('MC_IncSession', 'MC_IncSession_sim.cfg', simulate=1000, depth=6, seed=ctx.seed + 1, workers=1), 'sim')
 
 
 def run(ctx):
     ctx.rule = ('S2C: every (table, condition) of the TLC-enumerated universe replayed through inc/exc/find_<c> in every '
                 'spelling; every TLC-enumerated HISTORY of 2 calls (first call: any 0-2 (thorough 3) filters of a pool of 3 caller-owned '
-                'dicts / callables in every spelling - positional, ** keywords, exc= - second call: any 0-1 filter; thorough also '
-                'any x any and simulated histories of 5) on one real table with one set of filter objects, pool and table '
-                'snapshotted after every call; C2S: random tables (<= 30 rows, 2-4 columns) x random conditions, and random '
+                'dicts / callables in every spelling - positional, ** keywords, exc= - second call: any 0-1 filter, or the first call '
+                'again / its complement on the table it returned; thorough also any x any and simulated histories of 5) on one '
+                'real table with one set of filter objects, pool, table and chained operand snapshotted after every call; C2S: random tables (<= 30 rows, 2-4 columns) x random conditions, and random '
                 'recorded histories (2-6 calls, 2-5 pool objects), validated by Trace_Inc. '
                 'Non-trivial = the condition selects some but not all rows (distinct by table, condition, op); for histories: '
                 'some call hands over >= 2 filters (distinct by table, pool, calls).')
@@ -395,7 +415,7 @@ def run(ctx):
         cases = ctx.generate('MC_Inc', 'MC_Inc_gen2.cfg')
         s2c(ctx, ctx.rng.sample(cases, 6000))
     sessions(ctx)
-    c2s(ctx, 300 if ctx.quick else 5000, 400 if ctx.quick else 6000)
+    c2s(ctx, 300 if ctx.quick else 5000, 300 if ctx.quick else 6000)
     ctx.exhaustive = False
     ctx.assumptions += ['regular expressions are specified extensionally on the string universe StrU of spec/Table.tla; cells are drawn from it',
                         'small-scope: MC/S2C tables have <= 2 rows over 6-10 values; C2S tables <= 30 rows',
